@@ -72,20 +72,28 @@ def gen_inputs(c):
          ("empty", b""),
          ("one", b"a\n"),
          ("dups", b"".join(rng.choice([b"k1", b"k2", b"k3"]) + b"\n" for _ in range(200))),
+         # an empty first answer whose key recurs (cache's string pool must not hand out NULL for it)
+         ("emptyfirst", b"\n\na\n\nb\n\n"),
+         # more records than any plausible bound of the hand-off queue, for children that answer only after
+         # reading everything (the queue must be unbounded: the feeder may not block on the collector)
+         ("records20000", b"".join(b"r%d\n" % i for i in range(20000))),
          ("lines700", b"".join(b"row %d %s\n" % (i % 450, b"w" * (i % 17)) for i in range(700))),
          ("lines5000", b"".join(b"line %d %s\n" % (i % 1300, b"w" * (i % 7)) for i in range(5000))),
          ("distinct9000", b"".join(b"d%d\n" % i for i in range(9000))),
          ("long70k", b"y" * 70000 + b"\n"),
          ("long200k", b"x" * 200000 + b"\n"),
          ("long200k-mid", b"a\n" + b"x" * 200000 + b"\nb\n" + b"x" * 200000 + b"\n"),
-         ("mix", b"".join((b"q" * rng.choice((1, 50, 5000, 9000, 70000))) + b" %d\n" % i for i in range(25)))]
+         ("mix", b"".join((b"q" * rng.choice((1, 50, 5000, 9000, 70000))) + b" %d\n" % i for i in range(25))),
+         # line lengths at the case splits of the model/code: stream buffer 8192 (buffered vs direct write),
+         # pipe capacity 65536, both pipes together 131072 (with the newline: -1, 0, +1 around each)
+         ("edges", b"".join(b"e" * (n + d) + b"\n" for n in (8191, 8192, 65535, 65536, 131071, 131072) for d in (-1, 0, 1)))]
     if c.tier == "thorough":
         I.append(("big", b"".join(b"r%d %s\n" % (i % 50000, b"v" * (i % 211)) for i in range(300000))))
         I.append(("long2m", b"m" * 2000000 + b"\n"))
     return I
 
 
-def to_b64_docs(data, rng):
+def to_b64_docs(data, rng, single=False):
     """group the lines of data into documents and base64 them (one per line)"""
     lines = data.split(b"\n")
     if lines and lines[-1] == b"":
@@ -93,7 +101,7 @@ def to_b64_docs(data, rng):
     docs = []
     i = 0
     while i < len(lines):
-        k = rng.choice((1, 1, 2, 3, 10, 400))
+        k = 1 if single else rng.choice((1, 1, 2, 3, 10, 400))
         doc = b"\n".join(lines[i:i + k]) + (b"\n" if rng.random() < 0.7 else b"")
         if doc == b"":
             doc = b"\n"
@@ -186,12 +194,14 @@ def main(argv):
             big = len(data) > 1000000
             if c.tier == "quick" and name in ("distinct9000", "lines5000") and mode in ("block:7", "stdio"):
                 continue
+            if name == "records20000" and mode not in ("readall", "block:5000"):
+                continue
             cases.append(("cache", [], name, data, mode))
             if b"x" * 1000 not in data or mode in ("echo", "eager", "readall"):
                 cases.append(("foldfilter", ["-w", "40"] if not big else ["-w", "500000"], name, data, mode))
             if name.startswith("long"):
                 cases.append(("foldfilter", ["-w", "300000"], name, data, mode))
-            cases.append(("b64filter", [], name, to_b64_docs(data, c.rng), mode))
+            cases.append(("b64filter", [], name, to_b64_docs(data, c.rng, single=(name == "records20000")), mode))
 
     def do(case):
         tool, targs, name, data, mode = case
